@@ -254,7 +254,9 @@ def check_doc(spec, obs=None):
         else:
             missing = [e["member"] + " via " + repr(e["ref"]) for e in E if e["bytes"] not in got]
             extra = [b for b in got if b not in want]
-            if missing:
+            if missing and fmt == "rtf" and spec.get("opts", {}).get("rtf_wrap"):
+                fail("rtf.wrapped-hex-truncated", f"hex dump wrapped every {spec['opts']['rtf_wrap']} digits: not returned (or bytes differ): {missing[:3]}; returned sizes {[len(b) for b in got]}")
+            elif missing:
                 fail(f"{fmt}.placed-image-not-returned", f"not returned (or bytes differ): {missing[:3]}")
             elif extra or len(got) != len(want):
                 fail(f"{fmt}.image-count", f"{len(got)} images returned, the document places {len(want)}")
@@ -677,6 +679,9 @@ def gen_spec(rng, fmt, wild=False, many=False):
         opts["rid_base"] = 2
     if fmt == "epub" and rng.random() < 0.3:
         opts["items_images_first"] = True
+    if fmt == "rtf":
+        # the last control word of a \\pict group ends at a space or at a line break (RTF 1.9: a control word's delimiter)
+        opts["rtf_sep"] = rng.choice([" ", " ", "\n", "\r\n"])
     if fmt in SIB_WHERE and rng.random() < 0.7:
         sib = gen_sibs(rng, fmt, units)
         if sib:
@@ -1106,6 +1111,7 @@ OPEN_WITNESSES = {
     "odg.missing-member-entry": {"fmt": "odg", "media": {}, "units": [[{"t": "missing", "ref": "Pictures/zz.png", "fw": "2cm", "fh": "1cm"}]], "opts": {}},
     "odf.size-from-frame-extent": {"fmt": "odt", "media": {"Pictures/a.png": _png(1, 300, 200)}, "units": [[{"t": "embed", "part": "Pictures/a.png", "ref": "Pictures/a.png", "fw": "2cm", "fh": "1cm"}]], "opts": {}},
     "rtf.size-from-picw-as-twips": {"fmt": "rtf", "media": {"a": _png(1, 300, 200)}, "units": [[{"t": "embed", "part": "a"}]], "opts": {}},
+    "rtf.wrapped-hex-truncated": {"fmt": "rtf", "media": {"a": _png(1, 30, 20)}, "units": [[{"t": "embed", "part": "a"}]], "opts": {"rtf_wrap": 64}},
     "epub.no-pixel-size": {"fmt": "epub", "media": {"OEBPS/images/a.png": _png(1, 300, 200)}, "units": [[{"t": "embed", "part": "OEBPS/images/a.png", "ref": "images/a.png"}]], "opts": {"opf_dir": "OEBPS/"}},
     "xlsx.size-from-anchor-extent": {"fmt": "xlsx", "media": {"xl/media/a.png": _png(1, 300, 200)},
                                      "units": [[{"t": "embed", "part": "xl/media/a.png", "ref": "../media/a.png", "anchor": "one", "cx": 952500, "cy": 476250}]], "opts": {}},
